@@ -5,7 +5,7 @@ verus! {
 //@ include prelude/std_assumed.rs
 //@ include prelude/ansi_term.rs
 //@ include prelude/style.rs
-//@ broadcast vax::vax_group axiom_ascii_suffix_boundary
+//@ broadcast vax::vax_group axiom_ascii_suffix_boundary axiom_ascii_suffix_one_byte lemma_flat_push axiom_char_to_string
 
 // Mirror of syntect::highlighting::{Style, Color} (plain data of the dependency; trusted copy).
 #[derive(Clone, Copy, PartialEq, Eq, Structural)]
@@ -45,8 +45,50 @@ pub open spec fn superimposed_style_spec(syntect_style: SyntectStyle, style: Sty
     }
 }
 
+/// a list of (style, text) sections, character by character
+pub open spec fn chars_with(style: Style, s: Seq<char>) -> Seq<(Style, char)> { Seq::new(s.len(), |i: int| (style, s[i])) }
+pub open spec fn flat(v: Seq<(Style, String)>) -> Seq<(Style, char)> decreases v.len() {
+    if v.len() == 0 { Seq::empty() } else { flat(v.drop_last()) + chars_with(v.last().0, v.last().1@) }
+}
+pub broadcast proof fn lemma_flat_push(v: Seq<(Style, String)>, x: (Style, String))
+    ensures #[trigger] flat(v.push(x)) == flat(v) + chars_with(x.0, x.1@),
+{ assert(v.push(x).drop_last() =~= v); }
+/// C01/C15: what superimposing must give - every character of the line, in order, each in the diff style of ITS position with
+/// the syntax foreground of ITS position laid over it
+pub open spec fn superimposed_chars(secs: Seq<((SyntectStyle, Style), char)>, n: int, true_color: bool, null: SyntectStyle) -> Seq<(Style, char)> {
+    Seq::new(n as nat, |i: int| (superimposed_style_spec(secs[i].0.0, secs[i].0.1, true_color, null), secs[i].1))
+}
+/// a proper prefix of `s` that is at least as long as `s` without its last character IS `s` without its last character
+pub proof fn lemma_truncated_by_one(s: Seq<char>, t: Seq<char>)
+    requires s.len() >= 1, is_prefix(t, s), is_prefix(s.drop_last(), s) ==> s.drop_last().len() <= t.len(), t != s,
+    ensures t == s.drop_last(),
+{
+    assert(is_prefix(s.drop_last(), s)) by { assert(s.subrange(0, s.len() - 1) == s.drop_last()); }
+    if t.len() == s.len() { assert(s.subrange(0, s.len() as int) == s); }
+}
+use vstd::std_specs::cmp::PartialEqSpec;
+/// ASSUMED: `!=` on `&(SyntectStyle, Style)` (derived PartialEq of plain data) compares the contents
+pub axiom fn axiom_style_pair_eq()
+    ensures <(SyntectStyle, Style) as PartialEqSpec>::obeys_eq_spec(), forall|a: (SyntectStyle, Style), b: (SyntectStyle, Style)| #[trigger] a.eq_spec(&b) <==> a == b;
+
 //@ fn src/paint.rs superimpose_style_sections::coalesce
-//@loop 1| invariant forall|p: (SyntectStyle, Style)| make_superimposed_style.requires((p,)),
+//@| ensures flat(r@) =~= (if style_sections@.len() > 0 && style_sections@.last().1 == '\n' { superimposed_chars(style_sections@, style_sections@.len() - 1, true_color, null_syntect_style) }
+//@|                       else { superimposed_chars(style_sections@, style_sections@.len() as int, true_color, null_syntect_style) }),  // @C01,C15:every.character.of.the.line.comes.out.once.in.order.in.the.superimposed.style.of.its.own.position.only.the.final.newline.is.taken.off
+//@before <<<let mut style_sections = style_sections.iter();>>>| let ghost secs = style_sections@; proof { axiom_style_pair_eq(); }
+//@before <<<current_string.push(*c);>>>| proof { let i = it.index@ as int; assert(*style_pair == secs[i + 1].0 && *c == secs[i + 1].1);
+//@before <<<current_string.push(*c);>>>|   assert(superimposed_chars(secs, i + 2, true_color, null_syntect_style) =~= superimposed_chars(secs, i + 1, true_color, null_syntect_style).push((superimposed_style_spec(secs[i + 1].0.0, secs[i + 1].0.1, true_color, null_syntect_style), secs[i + 1].1)));
+//@before <<<current_string.push(*c);>>>|   let st = superimposed_style_spec(current_style_pair.0, current_style_pair.1, true_color, null_syntect_style);
+//@before <<<current_string.push(*c);>>>|   assert(chars_with(st, current_string@.push(*c)) =~= chars_with(st, current_string@).push((st, *c))); }
+//@loop 1| invariant current_string@.len() >= 1,
+//@before <<<if current_string.ends_with('\n') {>>>| let ghost cs0 = current_string@; let ghost st = superimposed_style_spec(current_style_pair.0, current_style_pair.1, true_color, null_syntect_style);
+//@before <<<if current_string.ends_with('\n') {>>>| proof { let all = superimposed_chars(secs, secs.len() as int, true_color, null_syntect_style); assert(flat(coalesced@) + chars_with(st, cs0) =~= all); assert(all.last().1 == secs.last().1); assert(chars_with(st, cs0).last().1 == cs0.last()); assert((flat(coalesced@) + chars_with(st, cs0)).last() == chars_with(st, cs0).last()); assert(cs0.last() == secs.last().1);
+//@before <<<if current_string.ends_with('\n') {>>>|   assert(is_suffix(seq!['\n'], cs0) <==> cs0.last() == '\n') by { if cs0.last() == '\n' { assert(cs0.subrange(cs0.len() - 1, cs0.len() as int) =~= seq!['\n']); } if is_suffix(seq!['\n'], cs0) { assert(cs0.subrange(cs0.len() - 1, cs0.len() as int)[0] == '\n'); } } }
+//@before#2/2 <<<let style = make_superimposed_style(*current_style_pair);>>>| proof { if is_suffix(seq!['\n'], cs0) { assert(('\n' as u32) < 128); assert(encode_utf8(cs0).len() >= 1); assert(encode_utf8(cs0.drop_last()).len() == encode_utf8(cs0).len() - 1); assert(encode_utf8(current_string@).len() == encode_utf8(cs0).len() - 1); assert(current_string@ != cs0); lemma_truncated_by_one(cs0, current_string@); assert(chars_with(st, cs0.drop_last()) =~= chars_with(st, cs0).drop_last()); assert(flat(coalesced@) + chars_with(st, cs0).drop_last() =~= (flat(coalesced@) + chars_with(st, cs0)).drop_last()); } }
+//@rewrite <<<for (style_pair, c) in style_sections {>>> => <<<for (style_pair, c) in it: style_sections {>>>
+//@loop 1|     it.seq().len() == secs.len() - 1, forall|j: int| 0 <= j < it.seq().len() ==> *(#[trigger] it.seq()[j]) == secs[j + 1],
+//@loop 1|     *current_style_pair == secs[it.index@ as int].0,
+//@loop 1|     /* @C01,C15:coalesce.the.finished.runs.and.the.open.run.spell.the.characters.seen.so.far.each.in.the.style.of.its.position */ flat(coalesced@) + chars_with(superimposed_style_spec(current_style_pair.0, current_style_pair.1, true_color, null_syntect_style), current_string@) =~= superimposed_chars(secs, it.index@ + 1, true_color, null_syntect_style),
+//@loop 1|     forall|p: (SyntectStyle, Style)| make_superimposed_style.requires((p,)), forall|p: (SyntectStyle, Style), q: Style| make_superimposed_style.ensures((p,), q) ==> q == superimposed_style_spec(p.0, p.1, true_color, null_syntect_style),
 //@rewrite <<<let make_superimposed_style = |(syntect_style, style): (SyntectStyle, Style)| {>>> => <<<let make_superimposed_style = |p: (SyntectStyle, Style)| -> (r: Style) ensures /* @C15:superimposed.style.changes.only.the.foreground.and.only.when.asked */ r == superimposed_style_spec(p.0, p.1, true_color, null_syntect_style) { let (syntect_style, style) = p;>>>
 
 } // verus!
